@@ -37,7 +37,7 @@ EXPLANATION = (
 RULE_KINDS = {
     "limit/dominates-follow": "structural", "limit/count-increases": "structural", "pairing/resolve-base": "structural", "pairing/next-hop-structural": "structural",
     "pairing/method-handed-on": "structural", "method/multi-hop": "bounded",
-    "credentials/must-pass-strip": "structural", "credentials/default-names": "structural", "tables/": "structural",
+    "credentials/must-pass-strip": "structural", "credentials/default-names": "structural", "credentials/per-request-state": "structural", "credentials/concurrent-requests": "bounded", "tables/": "structural",
     "method/status-table": "finite-exhaustive", "limit/configured-value": "finite-exhaustive",
     "pairing/next-hop": "bounded", "pairing/previous-response": "bounded", "limit/follows-at-most": "bounded", "limit/no-location": "bounded", "credentials/confined-to-origin": "bounded",
 }
@@ -333,6 +333,57 @@ def _s_redirect(ctx):
               "'relative' Locations: `//other.example/x` has no '://' yet changes the host)", witness=g.describe(w))
 
 
+def _s_per_request_state(ctx):
+    """STRUCTURAL (def-use by role): what a redirect hop decides - where to go, how often, which headers to strip - must derive from the data threaded through THIS request's
+    callback chain (the arguments of _handleResponse / _handleRedirect).  An attribute of the agent that is written while a request is being processed (by request() or anything
+    in the redirect chain) is per-AGENT mutable state shared by all requests in flight; reading it in the chain makes one request's redirect depend on another request"""
+    from sa.source import methods as _methods_of
+    cls = ctx.cls(CL, "RedirectAgent")
+    ms = _methods_of(cls)
+    if "request" not in ms or "_handleRedirect" not in ms:
+        raise Abstain("RedirectAgent.request / _handleRedirect not found")
+
+    def closure(roots):
+        seen, todo = [], list(roots)
+        while todo:
+            fn = todo.pop()
+            if any(fn is x for x in seen):
+                continue
+            seen.append(fn)
+            for c in ast.walk(fn):
+                if isinstance(c, ast.Call) and isinstance(c.func, ast.Attribute) and src(c.func.value) in ("self", "cls", cls.name) and c.func.attr in ms:
+                    todo.append(ms[c.func.attr])
+                # methods handed on as callbacks: addCallback(self._handleResponse, ...)
+                if isinstance(c, ast.Call):
+                    for a_ in c.args:
+                        if isinstance(a_, ast.Attribute) and src(a_.value) == "self" and a_.attr in ms:
+                            todo.append(ms[a_.attr])
+        return seen
+    chain = closure([ms["request"]])
+    written = {}
+    for fn in chain:
+        if fn.name == "__init__":
+            continue
+        for x in ast.walk(fn):
+            if isinstance(x, ast.Attribute) and isinstance(x.value, ast.Name) and x.value.id == "self" and isinstance(x.ctx, (ast.Store, ast.Del)):
+                written.setdefault(x.attr, fn.name)
+            if isinstance(x, ast.Call) and call_name(x) == "setattr" and x.args and src(x.args[0]) == "self" and len(x.args) > 1 and isinstance(x.args[1], ast.Constant):
+                written.setdefault(x.args[1].value, fn.name)
+    n = 0
+    for fn in chain:
+        for x in ast.walk(fn):
+            if isinstance(x, ast.Attribute) and isinstance(x.value, ast.Name) and x.value.id == "self" and isinstance(x.ctx, ast.Load) and x.attr in written:
+                n += 1
+                ctx.violation("credentials/per-request-state", Q + f"RedirectAgent.{fn.name} | self.{x.attr}",
+                              f"the redirect chain reads self.{x.attr}, which {written[x.attr]}() writes while a request is processed: it is state of the AGENT, shared by every request in "
+                              "flight - a second request overwrites it before the first one's redirect arrives, so that redirect is judged with the other request's data (e.g. its "
+                              "origin: Authorization / Cookie go to a foreign host)")
+    if not written:
+        ctx.ok("credentials/per-request-state", Q + "RedirectAgent | <attributes written while a request is processed>", "none: every hop works on its own arguments")
+    elif n == 0:
+        ctx.ok("credentials/per-request-state", Q + "RedirectAgent | <attributes written while a request is processed>", f"{sorted(written)} are never read in the redirect chain")
+
+
 def _s_tables(ctx):
     env = module_consts(ctx.mod("web/_responses.py"))
     expected_switch = {"RedirectAgent": {303}, "BrowserLikeRedirectAgent": {301, 302, 303}}
@@ -375,7 +426,9 @@ def _s_tables(ctx):
 
 
 def check(ctx):
-    for name, fn in (("s-redirect", lambda c: structural(c, "limit/dominates-follow / pairing / credentials/must-pass-strip", "the bounded redirect histories", _s_redirect, c)),
+    for name, fn in (("s-per-request-state", lambda c: structural(c, "credentials/per-request-state", "credentials/concurrent-requests (bounded)", _s_per_request_state, c)),
+                     ("concurrent", _concurrent),
+                     ("s-redirect", lambda c: structural(c, "limit/dominates-follow / pairing / credentials/must-pass-strip", "the bounded redirect histories", _s_redirect, c)),
                      ("s-tables", lambda c: structural(c, "tables/*", "method/status-table (finite-exhaustive evaluation)", _s_tables, c)),
                      ("resolution", _resolution), ("limit", _limit), ("credentials", _credentials), ("methods", _methods)):
         with ctx.section(name):
@@ -484,6 +537,62 @@ def _credentials(ctx):
     ctx.check(not bad, "credentials/confined-to-origin", q, msg, detail=f"{n} histories")
     inner, out = _run(w, "RedirectAgent", [_Response(302, b"http://b.example/o"), _Response(200)], uri=start, headers=None)
     ctx.check(out[0] == "ok" and len(inner.calls) == 2, "credentials/confined-to-origin", q + " | no headers", f"a request without headers is not redirected: {out[:3]}")
+
+
+class _PendingInner:
+    """the wrapped agent answering LATER: every request gets an unfired Deferred which the scenario fires in the order it chooses"""
+    _sa_model = True
+
+    def __init__(self):
+        self.calls, self.pending = [], []
+
+    def request(self, method, uri, headers=None, bodyProducer=None):
+        self.calls.append((method, uri, dict(headers.getAllRawHeaders()) if headers is not None else None, bodyProducer))
+        d = MDeferred()
+        self.pending.append(d)
+        return d
+
+
+def _concurrent(ctx):
+    """BOUNDED: two (three) requests in flight on ONE agent, to different origins, with and without credentials; their redirects arrive in every order.  Oracle: each hop carries the
+    sensitive headers iff every URL of ITS OWN chain so far has the origin of ITS OWN first request"""
+    w = _world(ctx)
+    q = Q + "RedirectAgent"
+    A, B = b"http://a.example/one", b"http://b.example/two"
+    bad, n = [], 0
+    for agent in ("RedirectAgent", "BrowserLikeRedirectAgent"):
+        for first, second in ((A, B), (B, A)):
+            for second_headers in (True, False):
+                for target in (b"http://b.example/landing", b"http://a.example/landing", b"/relative"):
+                    for order in ((0, 1), (1, 0)):
+                        n += 1
+                        inner = _PendingInner()
+                        ag = w.new(agent, inner, sensitiveHeaderNames=(b"x-custom-secret",))
+                        reqs = [(first, _Headers({**SENSITIVE, **PLAIN})), (second, _Headers({**SENSITIVE, **PLAIN}) if second_headers else None)]
+                        try:
+                            for u_, h_ in reqs:
+                                ag.request(b"GET", u_, h_)
+                            initial = list(inner.pending)
+                            for k in order:
+                                before = len(inner.calls)
+                                initial[k].callback(_Response(302, target))
+                                for (m_, u2, sent, _bp) in inner.calls[before:]:
+                                    own = reqs[k]
+                                    same = _origin(u2) == _origin(own[0])
+                                    sent = sent or {}
+                                    leaked = sorted(kk for kk in SENSITIVE if _Headers.canon(kk) in sent)
+                                    if own[1] is not None and not same and leaked:
+                                        bad.append((agent, first, second, target, order, f"the redirect of the request to {own[0].decode()} sends {[x.decode() for x in leaked]} to {u2.decode()}"))
+                                    elif own[1] is not None and same and len(leaked) != len(SENSITIVE):
+                                        bad.append((agent, first, second, target, order, f"the same-origin redirect of the request to {own[0].decode()} loses {[x.decode() for x in SENSITIVE if _Headers.canon(x) not in sent]}"))
+                        except ModelRaised as e:
+                            bad.append((agent, first, second, target, order, f"raises {e.name}"))
+    msg = ""
+    if bad:
+        agent, first, second, target, order, why = bad[0]
+        msg = (f"{agent}: requests to {first.decode()} and {second.decode()} in flight on one agent, both answered 302 Location: {target.decode()} (answers in order {order}): {why}; "
+               f"{len(bad)} of {n} interleavings wrong")
+    ctx.check(not bad, "credentials/concurrent-requests", q + " | <two requests in flight on one agent>", msg, detail=f"{n} interleavings")
 
 
 # ---- (d) status codes and methods -----------------------------------------------------------------------------------------------------
